@@ -142,3 +142,26 @@ def symmetric_roles(ctx, rule, d, r):
         ctx.violate(rule, con, d.module.rel, bad[0][0], "; ".join(m for _, m in bad[:3]))
     else:
         ctx.hold(rule, con, d.module.rel, d.execute.node.lineno, "input list consumed through symmetric aggregators / aligned weight zip only")
+
+
+def zero_is_a_value(ctx, rule, d, r):
+    """numeric parameters are never used as booleans: an explicit 0 (missing value 0, threshold 0) must count as given"""
+    nt = [f for f in r.findings if f[0] == "numtruth"]
+    con = "%s.execute::zero-is-a-value" % d.key
+    if nt:
+        ctx.violate(rule, con, d.module.rel, nt[0][1], nt[0][2])
+    else:
+        ctx.hold(rule, con, d.module.rel, d.execute.node.lineno, "numeric parameters are not used as booleans", nontrivial=False)
+
+
+def leaves_inputs_alone(ctx, rule, d, r, consequence="every other consumer of that result sees the change if it runs later, so results depend on command order"):
+    """no in-place write of the command reaches one of its inputs (the memoised result of the producer)"""
+    from engine.arrays import is_input_token
+
+    shared = sorted({a for w in r.writes for a in w.alias if is_input_token(a) and a != "self"})
+    con = "%s.execute::leaves-inputs-alone" % d.key
+    if shared:
+        w0 = [w for w in r.writes if any(is_input_token(a) and a != "self" for a in w.alias)][0]
+        ctx.violate(rule, con, d.module.rel, w0.line, "%s writes in place through its input %s (%s): %s" % (d.cls.name, tok_text(shared), w0.what, consequence))
+    else:
+        ctx.hold(rule, con, d.module.rel, d.execute.node.lineno, "no in-place write reaches an input", nontrivial=bool(r.writes))
